@@ -208,6 +208,112 @@ example :
     as.ok true = true ∧ specAligns as = 16 ∧ varAlign as (.prim .char) = .ok 16 ∧ varAlign .nil (.prim .int) = .ok 4 := by
   decide
 
+/-! ## `__attribute__((aligned(n)))` for every n; bit-field types; outcome classes -/
+
+/-- **C08 (`aligned(n)`, exactly).**  What `attribute_list` (guard and assignment regenerated from parse.c) does with one
+    `aligned(n)` when `ty->align` is `cur`: `aligned(0)` requests nothing; `aligned(2^k)`, k ≤ 28, requests 2^k; every other
+    n (negative, not a power of two, larger than 2^28) is the located diagnostic "alignment must be a power of two no larger
+    than 2^28".  This is gcc's rule (gcc only warns on 0). -/
+theorem C08_aligned_exact (cur n : Int) :
+    (n = 0 → alignAttr cur (some n) = .ok cur) ∧
+    (∀ k, k ≤ 28 → n = (2 : Int) ^ k → alignAttr cur (some n) = .ok n) ∧
+    (n ≠ 0 → (∀ k, k ≤ 28 → n ≠ (2 : Int) ^ k) → alignAttr cur (some n) = .error .badAlign) := by
+  rw [alignAttr_eq]
+  refine ⟨fun h => by simp [h], fun k hk hn => ?_, fun h0 hp => ?_⟩
+  · have hp : pow2le28 n = true := (pow2le28_iff n).2 ⟨k, hk, hn⟩
+    have := pow2le28_pos hp
+    have h0 : n ≠ 0 := by omega
+    simp [h0, hp]
+  · have hp' : ¬ pow2le28 n = true := fun h => by
+      obtain ⟨k, hk, hn⟩ := (pow2le28_iff n).1 h
+      exact hp k hk hn
+    simp [h0, hp']
+
+/-- **C08 (`aligned(0)`).**  `aligned(0)` on a struct or union lays out exactly like no attribute (sizeof, _Alignof, every
+    member offset and bit position, and the same diagnostic if the member list has one) — no division by zero. -/
+theorem C08_aligned_zero (p : Bool) (ms : Members) :
+    (Ty.struct p (some 0) ms).layout = (Ty.struct p none ms).layout ∧
+    (Ty.union p (some 0) ms).layout = (Ty.union p none ms).layout ∧
+    (Ty.struct p (some 0) ms).sizeAlign = (Ty.struct p none ms).sizeAlign ∧
+    (Ty.union p (some 0) ms).sizeAlign = (Ty.union p none ms).sizeAlign := by
+  have h : ∀ cur : Int, alignAttr cur (some 0) = alignAttr cur none := fun cur => (C08_aligned_exact cur 0).1 rfl
+  refine ⟨?_, ?_, ?_, ?_⟩ <;> simp only [Ty.layout, Ty.sizeAlign, h]
+
+-- non-vacuity: `struct __attribute__((aligned(0))) { char a; int b; }` is 8/4 with b at 4; the empty struct is 0/1
+example :
+    (Ty.struct false (some 0) (.cons ⟨none, true⟩ .nil (.prim .char) (.cons ⟨none, true⟩ .nil (.prim .int) .nil))).layout
+      = .ok ⟨8, 4, [⟨0, 0⟩, ⟨4, 0⟩]⟩ ∧
+    (Ty.struct false (some 0) .nil).layout = .ok ⟨0, 1, []⟩ ∧ (Ty.union true (some 0) .nil).layout = .ok ⟨0, 1, []⟩ := by
+  decide
+
+/-- **C08 (`aligned(n)` rejected).**  Every other n — non-zero and not one of 2^0 … 2^28 — on a struct or union is answered
+    with the located diagnostic, whatever the member list: never a layout, never a division by zero. -/
+theorem C08_aligned_rejected (p : Bool) (n : Int) (ms : Members) (h0 : n ≠ 0) (hp : ∀ k, k ≤ 28 → n ≠ (2 : Int) ^ k) :
+    (Ty.struct p (some n) ms).layout = .error .badAlign ∧ (Ty.union p (some n) ms).layout = .error .badAlign ∧
+    (Ty.struct p (some n) ms).sizeAlign = .error .badAlign ∧ (Ty.union p (some n) ms).sizeAlign = .error .badAlign := by
+  have h : ∀ cur : Int, alignAttr cur (some n) = .error .badAlign := fun cur => (C08_aligned_exact cur n).2.2 h0 hp
+  refine ⟨?_, ?_, ?_, ?_⟩ <;> simp only [Ty.layout, Ty.sizeAlign, h] <;> rfl
+
+-- non-vacuity: 3, -8, 2^28 + 2^27, 2^29, 2^32 (an `int` truncation would make it 0) satisfy the hypotheses …
+example : ∀ n ∈ [(3 : Int), -8, 402653184, 536870912, 4294967296], n ≠ 0 ∧ ∀ k, k ≤ 28 → n ≠ (2 : Int) ^ k := by decide
+-- … and 2^28 is still accepted: `struct __attribute__((aligned(268435456))) { char c; }` has alignment 2^28
+example : alignAttr 1 (some 268435456) = .ok 268435456 ∧ alignAttr 1 (some 1) = .ok 1 ∧ alignAttr 1 (some 536870912) = .error .badAlign := by
+  decide
+
+/-- **C08 (bit-field types).**  The declared types `struct_members` admits for a bit-field (type.c `is_integer`, kinds
+    regenerated) are exactly those of C11 6.7.2.1p5 as gcc extends it — `_Bool`, the char/short/int/long family signed or
+    unsigned, enumerated types — for every type description; and a member list whose first member is a bit-field of any
+    other type (floating, pointer, array, struct, union, void: also the zero-sized ones that used to be divisors) is answered
+    with the located diagnostic "bit-field has non-integer type". -/
+theorem C08_bitfield_type :
+    (∀ t : Ty, t.isInteger = isBitfieldBase t) ∧
+    (∀ (d : MemDecl) (as : Aligns) (ty : Ty) (rest : Members) (a : Int) (sa : Int × Int),
+      d.bitWidth.isSome = true → isBitfieldBase ty = false → as.eval 0 = .ok a → ty.sizeAlign = .ok sa →
+      (Members.cons d as ty rest).toMems = .error .bitfieldType) := by
+  refine ⟨fun t => (isBitfieldBase_eq_isInteger t).symm, ?_⟩
+  intro d as ty rest a sa hb hty ha hs
+  rw [isBitfieldBase_eq_isInteger] at hty
+  simp only [Members.toMems, ha, hs, bind, Except.bind, hb, hty, Bool.not_false, Bool.and_self, if_true]
+
+-- non-vacuity: `struct { float x : 3; }`, `struct { struct {} e : 1; }` (size 0), `struct { int a[0] : 1; }`, `union { int *p : 4; }`
+example :
+    (Ty.struct false none (.cons ⟨some 3, true⟩ .nil (.prim .float) .nil)).layout = .error .bitfieldType ∧
+    (Ty.struct false none (.cons ⟨some 1, true⟩ .nil (.struct false none .nil) .nil)).layout = .error .bitfieldType ∧
+    (Ty.struct false none (.cons ⟨some 1, true⟩ .nil (.arr (.prim .int) 0) .nil)).layout = .error .bitfieldType ∧
+    (Ty.union false none (.cons ⟨some 4, true⟩ .nil .ptr .nil)).layout = .error .bitfieldType ∧
+    (Ty.struct false none (.cons ⟨some 3, true⟩ .nil .enum .nil)).layout = .ok ⟨4, 4, [⟨0, 0⟩]⟩ := by
+  decide
+
+/-- **C08 (no zero divisor).**  For *every* type description — any nesting of arrays, pointers, structs and unions, any
+    `packed`, any `aligned(n)` (n any integer), any `_Alignas` specifiers with constant or type-name operands, bit-fields of
+    any declared type and any width, named or not — the model of `struct_members`/`attribute_list`/`struct_decl`/`union_decl`
+    never reaches `align_to(n, 0)` or `bits / (sz * 8)` with `sz = 0`: `sizeof`/`_Alignof`, the layout and the alignment of
+    a declared object are a value or a located diagnostic.  (Arithmetic in unbounded `Int`; the one place where the real
+    `int` arithmetic differs is `mem->align * 8` for `_Alignas(n)`, n ≥ 2^29, on a struct member: see the header.) -/
+theorem C08_no_divByZero (t : Ty) (as : Aligns) :
+    t.sizeAlign ≠ .error .divByZero ∧ t.layout ≠ .error .divByZero ∧ varAlign as t ≠ .error .divByZero :=
+  ⟨sizeAlign_ne_divByZero t, layout_ne_divByZero t, varAlign_ne_divByZero as t⟩
+
+/-- **C08 (outcome class).**  A type description gets a layout iff the specification accepts it (`specAccepted`, gcc's
+    constraints: every `aligned(n)` is 0 or a power of two ≤ 2^28 and every bit-field has an integer declared type, at every
+    depth, `_Alignas(type-name)` operands included); every other description gets one of the two located diagnostics; and
+    every well-formed description (`Ty.ok false`, the domain of `C08_types_Statement`, known-finding regions included) is
+    accepted. -/
+theorem C08_outcome_class (t : Ty) :
+    ((∃ l, t.layout = .ok l) ↔ specAccepted t = true) ∧
+    (specAccepted t = false → t.layout = .error .badAlign ∨ t.layout = .error .bitfieldType) ∧
+    (t.ok false = true → specAccepted t = true) := by
+  rw [← accepted_eq_ty]
+  exact ⟨layout_ok_iff t, layout_diag_of_not_accepted t, ok_accepted_ty false t⟩
+
+-- non-vacuity: a bad attribute deep inside an `_Alignas(type-name)` operand of a nested member
+example :
+    let bad : Ty := .union false (some 24) (.cons ⟨none, true⟩ .nil (.prim .long) .nil)
+    let t : Ty := .struct true none (.cons ⟨none, true⟩ .nil (.prim .char)
+      (.cons ⟨none, false⟩ .nil (.struct false (some 0) (.cons ⟨none, true⟩ (.type bad .nil) (.arr (.prim .char) 24) .nil)) .nil))
+    specAccepted t = false ∧ t.layout = .error .badAlign := by
+  decide
+
 /-! ## whole types: nested and anonymous aggregates, arrays, pointers, flexible array members -/
 
 /-- full statement for type descriptions (`Ty`: scalars, enum, pointers, arrays, flexible last member, struct/union with
